@@ -7,6 +7,7 @@
 package main
 
 import (
+	"flag"
 	"fmt"
 	"time"
 
@@ -79,6 +80,7 @@ func judge(r *vlogrun.Rec, file string, line int, chunks [][]byte) string {
 
 
 func main() {
+	flag.Parse() // before anything asks for the tier
 	vlogrun.Main("C01", 2, judge, vlogrun.StandardPasses(),
 		"every record is logged through the real Logger/JsonHandler and its bytes are parsed by an ordered JSON reader; states = distinct handler states (preformatted bytes, open groups, separator flag) reached by With/WithGroup chains; transitions = derivation steps executed; evaluations = records judged",
 		[]any{"msg=\"\\xff\\x22\" (2-byte string: invalid byte + quote) as message, key and value",
